@@ -133,3 +133,6 @@ def run(ctx):
     # task and its WORKING component are both logged READY; nothing else is altered) -- the display tables of C10
     from .C10 import r10_3
     r10_3(ctx)
+    # ... and an absence step inserted afterwards too: what the component editor inserts must be what the task editor inserts
+    from .C18 import r18_6
+    r18_6(ctx)
